@@ -174,9 +174,50 @@ Definition c04_document_accepts (E : env) (site_field : bool) (dname : option na
   | _ => false
   end.
 
+(** ** the translations, generic in the image of the scalar kinds ([ts]); [tr_env] etc. above are
+    the instance [tr_scalar] (kept as they are: other properties build on them) *)
+Definition tr_tdef_g (ts : scalar_kind -> Ast.scalar) (td : tdef) : Ast.type_body :=
+  match td with
+  | TScalar k => Ast.TScalar (ts k)
+  | TEnum vals => Ast.TEnum (map fst vals)
+  | TInput fields _ => Ast.TInput (map (fun f : name * in_def => (fst f, tr_indef (snd f))) fields)
+  end.
+
+Definition tr_env_g (ts : scalar_kind -> Ast.scalar) (E : env) : Ast.schema :=
+  {| Ast.s_types := map (fun p : name * tdef => (fst p, {| Ast.t_req := []; Ast.t_body := tr_tdef_g ts (snd p) |})) E;
+     Ast.s_query := []; Ast.s_mutation := None; Ast.s_subscription := None;
+     Ast.s_directives := []; Ast.s_meta := []; Ast.s_impls := [] |}.
+
+Definition tr_request_schema_g (ts : scalar_kind -> Ast.scalar) (E : env) (site_field : bool) (argdefs : list (name * in_def)) : Ast.schema :=
+  let int_t := Ast.StNamed n_Res in
+  let fld (a : list (Ast.name * Ast.input_def)) := {| Ast.f_type := int_t; Ast.f_args := a; Ast.f_req := [] |} in
+  let q := Ast.TObject [ ([102]%N, fld (if site_field then tr_argdefs argdefs else []));
+                          ([103]%N, fld []) ] [] in
+  let dir := {| Ast.dd_args := if site_field then [] else tr_argdefs argdefs; Ast.dd_locs := [Ast.LField] |} in
+  {| Ast.s_types := Ast.s_types (tr_env_g ts E)
+                    ++ [ (n_Query, {| Ast.t_req := []; Ast.t_body := q |});
+                         (n_Res, {| Ast.t_req := []; Ast.t_body := Ast.TScalar Ast.SInt |}) ];
+     Ast.s_query := n_Query; Ast.s_mutation := None; Ast.s_subscription := None;
+     Ast.s_directives := [ ([102; 108; 116]%N, dir); ([115; 107; 105; 112]%N, dir); ([105; 110; 99; 108; 117; 100; 101]%N, dir) ];
+     Ast.s_meta := []; Ast.s_impls := [] |}.
+
+Definition c04_accepts_g (ts : scalar_kind -> Ast.scalar) (E : env) (l : lit) (t : sty) (allow : bool) : bool :=
+  match ValidatorModel.coercion ValidatorModel.repaired ValidatorModel.id_order (tr_env_g ts E) (tr_lit l) (tr_sty t) allow with
+  | ValidatorModel.VR [] => true
+  | _ => false
+  end.
+
+Definition c04_document_accepts_g (ts : scalar_kind -> Ast.scalar) (E : env) (site_field : bool) (dname : option name)
+           (argdefs : list (name * in_def)) (defs : list vardef) (args : list (name * lit)) : bool :=
+  match ValidatorModel.validate_model_memo ValidatorModel.repaired ValidatorModel.id_order
+          (tr_request_schema_g ts E site_field argdefs) [] (tr_request_doc dname defs args) with
+  | Ast.Done [] => true
+  | _ => false
+  end.
+
 (** ** DateTime and LongInt through C04's refined scalars ([Ast.SRefined], round 6).
-    The translations above keep their kind-level images (other properties build on them); the
-    refined ones below are what the check now runs for every case, [bridgeable] or not. *)
+    [tr_scalar_r dt] is the image the check runs for every case and, from round 7 on, the one the
+    bridge theorems are stated over ([..._r]). *)
 Definition tr_scalar_r (dt : bytes -> option bytes) (k : scalar_kind) : Ast.scalar :=
   match k with
   | KDateTime => Ast.SRefined (Some [Ast.KString]) (Ast.PStringIn (fun s => match dt s with Some _ => true | None => false end))
@@ -184,36 +225,10 @@ Definition tr_scalar_r (dt : bytes -> option bytes) (k : scalar_kind) : Ast.scal
   | _ => tr_scalar k
   end.
 
-Definition tr_tdef_r (dt : bytes -> option bytes) (td : tdef) : Ast.type_body :=
-  match td with
-  | TScalar k => Ast.TScalar (tr_scalar_r dt k)
-  | _ => tr_tdef td
-  end.
-
-Definition tr_env_r (dt : bytes -> option bytes) (E : env) : Ast.schema :=
-  {| Ast.s_types := map (fun p : name * tdef => (fst p, {| Ast.t_req := []; Ast.t_body := tr_tdef_r dt (snd p) |})) E;
-     Ast.s_query := []; Ast.s_mutation := None; Ast.s_subscription := None;
-     Ast.s_directives := []; Ast.s_meta := []; Ast.s_impls := [] |}.
-
-Definition c04_accepts_r (dt : bytes -> option bytes) (E : env) (l : lit) (t : sty) (allow : bool) : bool :=
-  match ValidatorModel.coercion ValidatorModel.repaired ValidatorModel.id_order (tr_env_r dt E) (tr_lit l) (tr_sty t) allow with
-  | ValidatorModel.VR [] => true
-  | _ => false
-  end.
-
+Definition tr_tdef_r (dt : bytes -> option bytes) : tdef -> Ast.type_body := tr_tdef_g (tr_scalar_r dt).
+Definition tr_env_r (dt : bytes -> option bytes) : env -> Ast.schema := tr_env_g (tr_scalar_r dt).
+Definition c04_accepts_r (dt : bytes -> option bytes) := c04_accepts_g (tr_scalar_r dt).
 Definition bridge_agrees_r (E : env) (dt : bytes -> option bytes) (l : lit) (t : sty) : bool :=
   Bool.eqb (c04_accepts_r dt E l t true) (validate_coercion E dt l t true).
-
-Definition tr_request_schema_r (dt : bytes -> option bytes) (E : env) (site_field : bool) (argdefs : list (name * in_def)) : Ast.schema :=
-  let S0 := tr_request_schema E site_field argdefs in
-  {| Ast.s_types := Ast.s_types (tr_env_r dt E) ++ skipn (length E) (Ast.s_types S0);
-     Ast.s_query := Ast.s_query S0; Ast.s_mutation := None; Ast.s_subscription := None;
-     Ast.s_directives := Ast.s_directives S0; Ast.s_meta := []; Ast.s_impls := [] |}.
-
-Definition c04_document_accepts_r (dt : bytes -> option bytes) (E : env) (site_field : bool) (dname : option name)
-           (argdefs : list (name * in_def)) (defs : list vardef) (args : list (name * lit)) : bool :=
-  match ValidatorModel.validate_model_memo ValidatorModel.repaired ValidatorModel.id_order
-          (tr_request_schema_r dt E site_field argdefs) [] (tr_request_doc dname defs args) with
-  | Ast.Done [] => true
-  | _ => false
-  end.
+Definition tr_request_schema_r (dt : bytes -> option bytes) := tr_request_schema_g (tr_scalar_r dt).
+Definition c04_document_accepts_r (dt : bytes -> option bytes) := c04_document_accepts_g (tr_scalar_r dt).
